@@ -212,8 +212,8 @@ func (tb *TB) pathAtoms(pa *Path) []Atom {
 		if !ok {
 			continue
 		}
-		cond := pa.ResolveAt(ifi.Cond, i)
-		out = append(out, tb.atomOf(Guard{If: ifi, Cond: cond, Pol: pa.Edge[i] == 0}))
+		at := i
+		out = append(out, tb.atomOfRes(Guard{If: ifi, Cond: ifi.Cond, Pol: pa.Edge[i] == 0}, func(v ssa.Value) ssa.Value { return pa.ResolveAt(v, at) }))
 	}
 	return out
 }
